@@ -20,7 +20,6 @@ VARIABLES l, pend
 tvars == <<vars, l, pend>>
 
 Key(b) == b.f \o "/" \o b.s \o "/" \o b.c
-ToSet(q) == {q[i] : i \in 1..Len(q)}
 NoObs == [on |-> FALSE, srv |-> {}]
 ObsOK == pend.on => (up = <<>> /\ srvLog = flog[Editor] /\ {Key(b) : b \in srvBlobs} = pend.srv)
 
